@@ -35,24 +35,25 @@ SPEC = {
          'free': ['ind', 'axis'], 'params': ['ind_axis']},
         # ---- rises: digital mode (the decision d >= step), analog mode (x > step, then d >= 1), the index offset
         {'name': 'rises_ops_digital', 'module': 'ibldsp/utils.py', 'function': 'rises', 'kind': 'events',
-         'assume': {'analog': False}, 'free': ['d', 'ind'], 'params': ['d', 'step', 'len_ind'],
+         'assume': {'analog': False}, 'free': ['d', 'ind', 'step'], 'params': ['d', 'step', 'len_ind'],
          'events': [
              [_WHERE_DIFF, 'where', [r'1 if (d \1 step) else 0']],
              [r'.', 'other', []],
          ]},
+        # (x_in, step_in: the values of the arguments `x`, `step` on entry; `step` itself is re-assigned to 1 afterwards)
         {'name': 'rises_ops_analog', 'module': 'ibldsp/utils.py', 'function': 'rises', 'kind': 'events',
-         'assume': {'analog': True}, 'free': ['d', 'ind'], 'params': ['x', 'd', 'step', 'len_ind'],
+         'assume': {'analog': True}, 'free': ['d', 'ind'], 'params': ['x_in', 'step_in', 'd', 'len_ind'],
          'events': [
-             [r'^\(x (\S+) step\)\.astype\(np\.float64\)$', 'binarize', [r'1 if (x \1 step) else 0']],
+             [r'^\(x (\S+) step\)\.astype\(np\.float64\)$', 'binarize', [r'1 if (x_in \1 step_in) else 0']],
              [_WHERE_DIFF, 'where', [r'1 if (d \1 step) else 0']],
              [r'.', 'other', []],
          ]},
         {'name': 'rises_shift', 'module': 'ibldsp/utils.py', 'function': 'rises', 'kind': 'expr', 'target': 'ind[axis]',
-         'free': ['ind', 'axis'], 'params': ['ind_axis']},
+         'assume': {'analog': False}, 'free': ['ind', 'axis', 'step'], 'params': ['ind_axis']},
         # ---- _get_type_from_meta: decision table on snsApLfSy (an imec meta carries the key; a nidq meta does not)
         {'name': 'type_from_meta_imec', 'module': 'spikeglx.py', 'function': '_get_type_from_meta', 'kind': 'fn',
          'option_return': True, 'value': 'Option String', 'free': ['snsApLfSy'],
-         'assume': {r"snsApLfSy == \[-1, -1, -1\]": False}, 'params': ['snsApLfSy_0', 'snsApLfSy_1']},
+         'assume': {r"snsApLfSy == \[-1, -1, -1\] and .*": False}, 'params': ['snsApLfSy_0', 'snsApLfSy_1']},
         {'name': 'type_from_meta_nidq', 'module': 'spikeglx.py', 'function': '_get_type_from_meta', 'kind': 'fn',
          'option_return': True, 'value': 'Option String', 'free': ['snsApLfSy'],
          'assume': {r"snsApLfSy == \[-1, -1, -1\]": True, r"md\.get\('typeThis', None\) == 'nidq'": True},
@@ -65,6 +66,16 @@ SPEC = {
         {'name': 'nanalog_nidq', 'module': 'spikeglx.py', 'function': '_get_analog_sync_trace_indices_from_meta', 'kind': 'expr',
          'target': 'nsa', 'free': ['tr']},
     ],
-    'theorems': [],
-    'covers': 'draft',
+    'theorems': ['IblVerif.Tie.C10.split_sync_ops_eq', 'IblVerif.Tie.C10.split_sync_src_bit',
+                 'IblVerif.Tie.C10.fronts_ops_eq', 'IblVerif.Tie.C10.rises_ops_digital_eq', 'IblVerif.Tie.C10.rises_ops_analog_eq',
+                 'IblVerif.Tie.C10.shift_eq', 'IblVerif.Tie.C10.type_from_meta_imec_eq', 'IblVerif.Tie.C10.type_from_meta_nidq_eq',
+                 'IblVerif.Tie.C10.sync_idx_nidq_eq', 'IblVerif.Tie.C10.sync_idx_imec_eq', 'IblVerif.Tie.C10.analog_idx_nidq_eq'],
+    'covers': 'spikeglx.split_sync (the ordered array operations with their integer arguments: int16 cast, byte view + unpackbits + '
+              'reshape(size, 16), roll by 8 and flip along axis 1, evaluated with their NumPy meaning = the model pipeline, hence '
+              'line k = bit k); utils.fronts and utils.rises (element-wise decisions |d| >= step, d >= step, analog x > step then '
+              'd >= 1; the index offset ind[axis] += 1); spikeglx._get_type_from_meta (decision table on snsApLfSy); which meta '
+              'entry gives the number of sync words (nidq snsMnMaXaDw[-1], imec snsApLfSy[2]) and of analog sync channels '
+              '(snsMnMaXaDw[-2]).  NOT covered (outside the translator: events in return statements / masked assignments): '
+              'utils.falls (negation of x and step), the return expressions list(range(...)), Reader.read_sync (thresholding, '
+              'percentile floor, column order of the concatenation)',
 }
